@@ -74,6 +74,7 @@ M5_TRUST = ["M5 (lean/Ldlm/Model/Client.lean) is a hand-written sequential model
             "tie: random histories on the real client over an in-process recording transport to the real service in virtual time against the compiled model: RPCs emitted (method, request fields, instant, answer), panics, server listing, lease timers and the renew map compared after every operation; rpcWithRetry compared with the model's retry on every script of attempt outcomes up to a bound; built with the instrumented overlay so that goroutine panics are recorded instead of killing the run"]
 RESTMODEL = resttest("TestRestModel", "restmodel")
 REST = resttest("TestRest", "rest")
+RESTWIRE = resttest("TestRestWire", "restwire")
 RESTCONC = restconctest()
 M4_TRUST = ["M4 (lean/Ldlm/Model/Rest.lean) is a hand-written sequential model of net/rest/rest.go on top of M2; net/http cookie parsing, grpc-gateway routing and protojson decoding, uuid freshness of cookies (genCookie injective) are exercised or assumed, not modelled",
             "tie: random histories on the real gateway + service object in virtual time (testing/synctest) against the compiled model through the line protocol; HTTP status, decoded answer, sessions ended by idle timers, hold listing, lock table, lease timers, gateway session table and idle-timer map (overlay accessor rest.VerifSessions) compared after every operation; ties between an idle timer and another timer on the same instant are detected by the model and the history is cut there"]
@@ -193,8 +194,8 @@ PROPS = {
         theorems=[P + "C15." + t for t in ("same_request_same_step", "paired_runs_agree", "keys_cross_transports", "renew_cross_transports", "refused_request_invisible")]
                  + ["Ldlm.Rest.sim_step", "Ldlm.Rest.paired_agree", "Ldlm.Core.advance_now"],
         status={},
-        streams=[RESTMODEL, REST],
-        level_text="M4 puts the gateway's session table in front of M2: a REST request under a valid cookie and a gRPC request on a connection are both Core.step of the same service call under the lock-server session bound to the cookie / the connection; the error code in the answer comes from one regenerated table on both transports. Proved: at any state the two transports change the server identically and answer identically for the same session; for two fresh servers and EVERY well-formed request sequence (any number of sessions, any TryLock/Unlock/Renew parameters, any gaps) shorter than the REST session timeout, the run through the gateway and the run over gRPC end in equal lock-server states, give equal answers request by request, and no REST request is refused (forward simulation, induction over the sequence); on one server an Unlock/Renew has the same effect and answer through any REST session and any gRPC connection (keys cross transports); a refused REST request never reaches the server. Tied to the code by restmodel (M4 vs the real gateway and service object with both transports interleaved on one server, channel-by-channel after every operation) and by the model-independent paired run of two real servers (all proto3-JSON spellings, malformed bodies, bounded-exhaustive words).",
+        streams=[RESTMODEL, REST, RESTWIRE],
+        level_text="M4 puts the gateway's session table in front of M2: a REST request under a valid cookie and a gRPC request on a connection are both Core.step of the same service call under the lock-server session bound to the cookie / the connection; the error code in the answer comes from one regenerated table on both transports. Proved: at any state the two transports change the server identically and answer identically for the same session; for two fresh servers and EVERY well-formed request sequence (any number of sessions, any TryLock/Unlock/Renew parameters, any gaps) shorter than the REST session timeout, the run through the gateway and the run over gRPC end in equal lock-server states, give equal answers request by request, and no REST request is refused (forward simulation, induction over the sequence); on one server an Unlock/Renew has the same effect and answer through any REST session and any gRPC connection (keys cross transports); a refused REST request never reaches the server. Tied to the code by restmodel (M4 vs the real gateway and service object with both transports interleaved on one server, channel-by-channel after every operation) by the model-independent paired run of two real servers (all proto3-JSON spellings, malformed bodies, bounded-exhaustive words), and by the same paired run over the wire: the real http.Server on a loopback listener with every REST session of a sequence sharing one keep-alive connection.",
         level_note="paired_runs_agree needs: requests only on open sessions (a closed connection cannot send) and total duration < RestSessionTimeout (no idle expiry on the REST side, which has no gRPC counterpart); idle expiry itself is C20. JSON decoding is library code (grpc-gateway, protojson): exercised by the paired stream, not modelled. Trusted: Lean kernel, hand-written M4/M2, uuid freshness of cookies, the differential ties.",
         technique="Lean 4 proof (forward simulation between the REST run and the gRPC run of any request sequence; per-state transport equivalence) + differential correspondence of the gateway model + paired real-server differential",
         trusted=M4_TRUST + M2_TRUST,
@@ -230,9 +231,10 @@ PROPS = {
         trusted=M5_TRUST + M2_TRUST + CONC_TRUST,
     ),
     "C07": dict(
-        modules=[P + "C07"],
+        modules=[P + "C07", "Ldlm.Pins.C07"],
         theorems=[P + "C07." + t for t in ("failed_inert", "timerKey_injective", "unlock_frame_locks", "renew_frame", "waitTimeout_frame")]
-                 + [P + "C07.reachable", P + "C07.failed_inert_reachable", "Ldlm.Core.step_invS", "Ldlm.Core.run_invS", "Ldlm.Core.restart_inv'", "Ldlm.Core.inv_blocks"],
+                 + [P + "C07.reachable", P + "C07.failed_inert_reachable", "Ldlm.Core.step_invS", "Ldlm.Core.run_invS", "Ldlm.Core.restart_inv'", "Ldlm.Core.inv_blocks",
+                    "Ldlm.Pins.C07.pin_lockTimerKey", "Ldlm.Pins.C07.pin_timerKeyArgs"],
         status={},
         streams=[SEQ],
         level_text="For every state satisfying the reachability invariant and every Lock/TryLock/Unlock/Renew/admin-unlock request that answers with an error, sizes, key lists, waiter queues, lease timers, session table, state file and blocked calls are proved unchanged (idle clock and key counter excluded and named); the lease-timer key is proved injective on byte strings, and Unlock/Renew are proved to leave other locks / other pairs' leases alone. Tied to the code by seqdiff over adversarial name/key alphabets (a, ab, b+K, …) with a model-independent 'snapshot before = snapshot after' monitor.",
